@@ -6,8 +6,18 @@ From Verif Require Import Base.Lex SnapRead.Model SnapRead.ProofsOrd SnapRead.Pr
 Lemma prepend_done l o out : o = Done out -> prepend l o = Done (l ++ out).
 Proof. intros ->. reflexivity. Qed.
 
+Lemma bounded_retry_none retry i E : bounded_retry retry i E -> retry i = None -> bounded_retry retry (S i) E.
+Proof. intros H He n. specialize (H (S n)). cbn [count_retry] in H. rewrite He in H. exact H. Qed.
+Lemma bounded_retry_some retry i E k : bounded_retry retry i E -> retry i = Some k ->
+  exists E', E = S E' /\ bounded_retry retry (S i) E'.
+Proof.
+  intros H He. destruct E as [|E'].
+  - specialize (H 1%nat). cbn [count_retry] in H. rewrite He in H. lia.
+  - exists E'. split; [reflexivity|]. intros n. specialize (H (S n)). cbn [count_retry] in H. rewrite He in H. lia.
+Qed.
+
 Section Loop.
-  Variables (ko : bool) (B : nat) (P U : list key) (env : nat -> layout * rows).
+  Variables (ko : bool) (B : nat) (P U : list key) (retry : nat -> option retry_kind) (env : nat -> layout * rows).
   Variable E : key -> key -> list (key * value).
   Hypothesis HB : (1 <= B)%nat.
   Hypothesis Hsorted : forall i, ksorted (snd (env i)).
@@ -18,20 +28,26 @@ Section Loop.
 
   Definition mu' (c : cursor) : nat := if eof c then 0%nat else S (mu P U c).
 
-  Lemma fwd_loop : forall fuel i c,
-    reverse c = false -> (mu' c < fuel)%nat ->
-    exists out, scan_loop fuel B ko env i c = Done out /\
+  Lemma fwd_loop : forall fuel i c R,
+    reverse c = false -> bounded_retry retry i R -> (mu' c + R < fuel)%nat ->
+    exists out, scan_loop fuel B ko retry env i c = Done out /\
                 map (canon ko) out = if eof c then [] else E (next_start c) (end_key c).
   Proof.
-    induction fuel as [|f IH]; intros i c Hrev Hmu; [lia|].
-    cbn [scan_loop]. unfold mu' in Hmu. destruct (eof c) eqn:Heof.
+    induction fuel as [|f IH]; intros i c R Hrev Hb Hmu; [lia|].
+    cbn [scan_loop]. destruct (eof c) eqn:Heof.
     - exists []. split; reflexivity.
-    - destruct (fwd_step ko B P U HB (fst (env i)) (snd (env i)) c (Hsorted i) Hrev Heof (Hlay i) (Hkeys i))
+    - destruct (retry i) as [k|] eqn:Er.
+      { destruct (bounded_retry_some _ _ _ _ Hb Er) as (R' & -> & Hb').
+        destruct (IH (S i) c R' Hrev Hb') as (out & H1 & H2); [lia|].
+        exists out. split; [exact H1|]. rewrite H2, Heof. reflexivity. }
+      pose proof (bounded_retry_none _ _ _ Hb Er) as Hb'.
+      unfold mu' in Hmu. rewrite Heof in Hmu.
+      destruct (fwd_step ko B P U HB (fst (env i)) (snd (env i)) c (Hsorted i) Hrev Heof (Hlay i) (Hkeys i))
         as (ps & c' & Hgd & Hrev' & Hend' & Hcons & Hsplit & Hdec).
       rewrite Hgd, Hcons.
-      assert (Hmu' : (mu' c' < f)%nat).
+      assert (Hmu' : (mu' c' + R < f)%nat).
       { unfold mu'. destruct (eof c') eqn:E'; [lia|]. specialize (Hdec eq_refl). lia. }
-      destruct (IH (S i) c' Hrev' Hmu') as (out' & Hloop & Hout).
+      destruct (IH (S i) c' R Hrev' Hb' Hmu') as (out' & Hloop & Hout).
       exists (emit ko ps ++ out'). split; [apply prepend_done; exact Hloop|].
       rewrite map_app, Hout. rewrite <- (Hind i (next_start c) (end_key c)). rewrite Hsplit.
       rewrite emit_app, map_app. f_equal.
@@ -115,21 +131,22 @@ Qed.
 
 Theorem scan_forward_complete :
   forall (T : truth) (ts : N) (lo hi : key) (B : nat) (ko : bool)
-         (lay : nat -> layout) (lk : nat -> list key) (P : list key),
-    tsorted T -> (forall i, incl (lay i) P) ->
+         (retry : nat -> option retry_kind) (R : nat) (lay : nat -> layout) (lk : nat -> list key) (P : list key),
+    tsorted T -> (forall i, incl (lay i) P) -> bounded_retry retry 0 R ->
     exists out,
-      scan (length P + length T + 2) B ko ts T lay lk lo hi false = Done out /\
+      scan (length P + length T + 2 + R) B ko ts T retry lay lk lo hi false = Done out /\
       map (canon ko) out = map (canon ko) (expected ts lo hi T).
 Proof.
-  intros T ts lo hi B ko lay lk P HT Hlay. unfold scan.
-  destruct (fwd_loop ko (norm_batch B) P (map fst T) (scan_env ts T lay lk)
+  intros T ts lo hi B ko retry R lay lk P HT Hlay Hb. unfold scan.
+  destruct (fwd_loop ko (norm_batch B) P (map fst T) retry (scan_env ts T lay lk)
               (fun a b => map (canon ko) (expected ts a b T)) (norm_batch_pos B))
-    with (fuel := (length P + length T + 2)%nat) (i := 0%nat) (c := init_cursor lo hi false) as (out & H1 & H2).
+    with (fuel := (length P + length T + 2 + R)%nat) (i := 0%nat) (c := init_cursor lo hi false) (R := R) as (out & H1 & H2).
   - intros i. cbn. apply rows_of_sorted. exact HT.
   - intros i. cbn. apply Hlay.
   - intros i e. cbn. apply rows_of_keys.
   - intros i a b. cbn [scan_env snd]. unfold expected, key_in. apply (emit_rows_of ko ts T (lk i) (in_range a b)).
   - reflexivity.
+  - exact Hb.
   - unfold mu'. cbn [init_cursor eof]. pose proof (mu_bound P (map fst T) (init_cursor lo hi false)).
     rewrite map_length in H. lia.
   - exists out. split; [exact H1|]. exact H2.
